@@ -229,6 +229,30 @@ func valueLeaves(v ssa.Value, rs *core.Resolver, depth int) []leaf {
 				return out
 			}
 		}
+	case *ssa.Extract:
+		// one component of a multi-result module helper
+		if c, ok := x.Tuple.(*ssa.Call); ok {
+			cal := c.Common().StaticCallee()
+			if cal != nil && len(cal.Blocks) > 0 && cal.Pkg != nil && x.Parent() != nil && cal.Pkg == core.Outermost(x.Parent()).Pkg {
+				rs2 := core.NewResolver()
+				for k, vv := range rs.Env {
+					rs2.Env[k] = vv
+				}
+				rs2.Bind(c)
+				var out []leaf
+				for _, ret := range core.Returns(cal) {
+					if cal.Recover != nil && ret.Block() == cal.Recover {
+						continue
+					}
+					if x.Index < len(ret.Results) {
+						out = append(out, valueLeaves(ret.Results[x.Index], rs2, depth+1)...)
+					}
+				}
+				if len(out) > 0 {
+					return out
+				}
+			}
+		}
 	}
 	return []leaf{{v, rs}}
 }
